@@ -284,6 +284,9 @@ def _instances(tier):
     for op, axis, inplace, count, rational in (('translate', None, True, 2, False), ('scale', None, False, 3, True),
                                                 ('rotate', 2, True, 3, False)):
         out.append(dict(kind='curve3', rational=rational, op=op, axis=axis, inplace=inplace, count=count, big=False, grid='peek'))
+    # a container that holds one shape twice
+    for op, axis, inplace, rational in (('translate', None, True, False), ('scale', None, False, True), ('rotate', 2, False, False)):
+        out.append(dict(kind='curve3', rational=rational, op=op, axis=axis, inplace=inplace, count=2, big=False, dup=True))
     # containers mixing rational and non-rational members
     for op, axis, inplace, count, rational, kind in (('scale', None, True, 2, True, 'curve3'), ('scale', None, False, 3, False, 'curve3'),
                                                       ('translate', None, False, 2, False, 'surface'), ('rotate', 0, True, 2, True, 'curve3'),
@@ -306,7 +309,7 @@ def _instances(tier):
                       'abstract.GeomdlBase.__deepcopy__', 'NURBS.Curve.ctrlpts', 'NURBS.Surface.ctrlpts',
                       'NURBS.Volume.ctrlpts', 'linalg.vector_generate'],
           quick=lambda: _instances('quick'), thorough=lambda: _instances('thorough'))
-def affine_map(ctx, kind, rational, op, axis, inplace, count, big, clamped=True, grid=False, mixed=False):
+def affine_map(ctx, kind, rational, op, axis, inplace, count, big, clamped=True, grid=False, mixed=False, dup=False):
     """requires: valid clamped knot vectors, parameters in the domain, positive weights; any vector / factor / angle;
                  count = 0: the bare shape, count = 1..3: a container of that many shapes (different degrees and sizes)
        ensures : every shape of the result evaluates to tau(original point); weights, degrees, sizes, knot vectors
@@ -319,6 +322,8 @@ def affine_map(ctx, kind, rational, op, axis, inplace, count, big, clamped=True,
         # mixed: a container whose members alternate between rational and non-rational shapes
         members.append(_build_one(ctx, kind, variant, (rational if i % 2 == 0 else not rational) if mixed else rational,
                                   'ABC'[i], clamped=clamped))
+    if dup:
+        members[-1] = members[0]          # the container holds the SAME object twice: it is moved once, not once per entry
     # the domain [U[p], U[n]] of each direction (== [0, 1] for the clamped family); the start point is its lower corner
     m0 = members[0]
     dom = [(m0['kvs'][a][m0['deg'][a]], m0['kvs'][a][m0['sizes'][a]]) for a in range(k['pd'])]
